@@ -91,10 +91,10 @@ def fifolate(mp, P):
 def dispatcher(mp, P):
     return {"harness": "vxH08Dispatcher", "args": [str(mp)], "files": F08, "preempt": P, "reach": ["done"], "timeout_s": 1500,
             "bounds": f"an implementation answering from one dispatcher goroutine: two requests sharing a symbolic tag (the second slow inside the implementation) and an unrelated request; Maxpend={mp}; <= {P} preemptions"}
-def reset08(wn, P):
-    return {"harness": "vxH03Reset", "args": [str(wn)], "files": ["api", "ref_wire", "kit_srv", "kit_net", "reset_c03"], "preempt": P, "reach": ["done"], "timeout_s": 1500,
-            "bounds": f"tag groups across a session reset: a Tversion in mid-session while one request is held in the implementation and {wn} more wait behind it under the same tag; afterwards requests reusing that tag are started and answered; <= {P} preemptions"}
-q08 = [reset08(1, 1), reset08(2, 0), spawn(0), spawn(2), fifolate(0, 1), fifolate(2, 1), dispatcher(0, 1), dispatcher(2, 1)]
+def reset08(wn, P, late=False):
+    return {"harness": "vxH03Reset", "args": [str(wn), "true" if late else "false"], "files": ["api", "ref_wire", "kit_srv", "kit_net", "reset_c03"], "preempt": P, "reach": ["done"], "timeout_s": 1500,
+            "bounds": f"tag groups across a session reset: a Tversion in mid-session while one request is held in the implementation and {wn} more wait behind it under the same tag; afterwards {'a new group under that tag, formed while the aborted request still executes, runs one at a time in order' if late else 'requests reusing that tag are started and answered'}; <= {P} preemptions"}
+q08 = [reset08(1, 1), reset08(2, 0), reset08(1, 1, True), reset08(0, 1, True), spawn(0), spawn(2), fifolate(0, 1), fifolate(2, 1), dispatcher(0, 1), dispatcher(2, 1)]
 q08 += [{"harness": "vxH08NoLockTwin", "args": [], "files": F08, "reach": ["twin"], "bounds": "twin: a call into the implementation made with a lock held is detected"}]
 q08 += [nolock(t, a, f) for t in TT for (a, f) in ((True, True), (False, False))]
 q08 += [block(2, 0, False, True, True, 1), block(2, 2, True, True, True, 0), block(2, 0, False, True, False, 0),
@@ -147,6 +147,8 @@ q12 += [client(True, 1), client(True, 4)]
 q12 += [{"harness": "vxH12Twice", "args": [], "files": F12, "reach": ["done"], "bounds": "two valid Tversions on one connection, each with a symbolic dialect request and any msize >= 24, server dialect symbolic: the second negotiation yields .u iff it asks for it and the server speaks it, msize within both limits"}]
 q12 += [{"harness": "vxH13SrvOversize", "args": ["32", "1"], "files": ["api", "ref_wire", "kit_srv", "kit_net", "c13_seg_srv", "over_c13"], "preempt": 0, "free_switches": -1, "reach": ["done"],
          "bounds": "receive loop, msize 32: a well-formed frame of msize+17 bytes between ordinary requests, one segment and every single cut: never executed or answered, connection dropped (workload shared with C13)"}]
+q12 += [{"harness": "vxH12SameSeg", "args": [b(c)], "files": F12, "preempt": 0, "free_switches": -1, "reach": ["done"],
+         "bounds": f"server msize 8192: a Tversion negotiating any msize in 24..99 and a 100-byte Tattach {'in separate segments' if c else 'in one segment'}: the Tattach is neither executed nor answered, the connection is dropped"} for c in (False, True)]
 q12 += [{"harness": "vxH12Retry", "args": [], "files": F12, "reach": ["done"], "bounds": "a Tversion with symbolic msize < 24 (refused) followed by one with symbolic msize >= 24, server msize symbolic: the refusal changes nothing, the retry negotiates min"}]
 # error replies at a tiny msize must fit it in both dialects (shared with C06's one-step harness)
 q12 += [{"harness": "vxH06Step", "args": [str(t), "true", "24"], "files": ["api", "ref_wire", "kit_srv", "kit_net", "c06"], "reach": ["done"],
